@@ -209,8 +209,30 @@ pub fn build_cases(tier: &str, seed: u64, pools: &Pools) -> Vec<Case> {
         let auth_payload: Vec<u8> = auth.as_ref().and_then(|t| util::unb64(t.split('.').nth(2).unwrap_or(""))).unwrap_or_default();
         // (1) correct header + base64url of EVERY decoded length 0..=400 (exhaustive), three fills, with/without footer segment
         let maxlen = if thorough { 2000 } else { 400 };
+        // ... plus, with one fill, every length up to 1100 (thorough 4200) and the neighbourhood (-4..=+4) of every power of two
+        // and of three times a power of two up to 96 KiB (fixed-size scratch buffers of 512, 768, 1024, 4096 ... bytes, and
+        // their base64 images, have their edges there)
+        let mut lens: Vec<(usize, usize)> = Vec::new();
         for len in 0..=maxlen {
             for fill in 0..3 {
+                lens.push((len, fill));
+            }
+        }
+        for len in maxlen + 1..=(if thorough { 4200 } else { 1100 }) {
+            lens.push((len, 1 + len % 2));
+        }
+        for k in 10..=15u32 {
+            for base in [1usize << k, 3usize << k] {
+                for d in -4i64..=4 {
+                    let len = (base as i64 + d) as usize;
+                    if len > (if thorough { 4200 } else { 1100 }) {
+                        lens.push((len, 1));
+                    }
+                }
+            }
+        }
+        for (len, fill) in lens {
+            {
                 let bytes: Vec<u8> = match fill {
                     0 => vec![0u8; len],
                     1 => rng.bytes(len),
@@ -501,4 +523,4 @@ pub fn replay(case: &Value) -> Report {
     r
 }
 
-pub const RULE: &str = "cases = for each of the 8 protocols x 4 entry points (core, generic, batteries new(), batteries default()): the correct header followed by base64url of EVERY decoded length 0..=400 (thorough 0..=2000) with zero/random/authentic-prefix fill, with and without a matching footer segment; random larger payloads; every character prefix and several extensions of authentic tokens; multi-byte characters substituted and inserted at each of the first 14 positions (so that byte offsets near the header length are not character boundaries); invalid/padded/non-alphabet base64, incl. one foreign character ('=', '+', '/', '%', blank, NUL, multi-byte) substituted or inserted at every position of short payload / footer segments and at the ends and middle of longer ones; 0-6 segment strings of arbitrary Unicode; foreign and relabelled tokens; large inputs; expected footers/assertions of 64..70000 bytes with 3- and 4-segment input; AUTHENTIC tokens carrying hostile payloads (non-JSON, non-object, extreme/malformed exp/nbf/iat incl. the edges of year 0 and 9999 with offsets, leap seconds, huge numbers, nesting to depth 5000, 100 KB strings, 2000 members), each also through upper-layer parsers configured with check_claim / validate_claim / extend_validation_claims / extend_check_claims for present and absent keys; garbage public keys; and Key::<N>::try_from(&str) for N in {1,2,24,32,48,49,56,64} on hex strings of every length 0..=200 plus non-hex text. All with VALID key material so that parsing proceeds past key handling. Oracle: any Ok/Err is fine, a panic or process death is the violation. distinct_nontrivial = distinct (entry point, case class, outcome variant) tuples whose input got past the segment-count and header checks";
+pub const RULE: &str = "cases = for each of the 8 protocols x 4 entry points (core, generic, batteries new(), batteries default()): the correct header followed by base64url of EVERY decoded length 0..=400 (thorough 0..=2000) with zero/random/authentic-prefix fill, every length up to 1100 (thorough 4200) with one fill, and the lengths within 4 of every power of two and of three times a power of two up to 96 KiB, with and without a matching footer segment; random larger payloads; every character prefix and several extensions of authentic tokens; multi-byte characters substituted and inserted at each of the first 14 positions (so that byte offsets near the header length are not character boundaries); invalid/padded/non-alphabet base64, incl. one foreign character ('=', '+', '/', '%', blank, NUL, multi-byte) substituted or inserted at every position of short payload / footer segments and at the ends and middle of longer ones; 0-6 segment strings of arbitrary Unicode; foreign and relabelled tokens; large inputs; expected footers/assertions of 64..70000 bytes with 3- and 4-segment input; AUTHENTIC tokens carrying hostile payloads (non-JSON, non-object, extreme/malformed exp/nbf/iat incl. the edges of year 0 and 9999 with offsets, leap seconds, huge numbers, nesting to depth 5000, 100 KB strings, 2000 members), each also through upper-layer parsers configured with check_claim / validate_claim / extend_validation_claims / extend_check_claims for present and absent keys; garbage public keys; and Key::<N>::try_from(&str) for N in {1,2,24,32,48,49,56,64} on hex strings of every length 0..=200 plus non-hex text. All with VALID key material so that parsing proceeds past key handling. Oracle: any Ok/Err is fine, a panic or process death is the violation. distinct_nontrivial = distinct (entry point, case class, outcome variant) tuples whose input got past the segment-count and header checks";
